@@ -315,6 +315,13 @@ def range_(ctx):
         if l0 == h0 and a > b:
             a, b = b, a
     form = gen.pick(rng, ["tuple", "tuple", "list", "array", "reversed"])
+    # the two bounds are numbers of whatever kind the caller has at hand: a whole number is
+    # written as a Python int, the other bound stays a float (sel(x=(1, 2.7)))
+    a, b = float(a), float(b)
+    if a.is_integer() and abs(a) < 2**53 and rng.random() < 0.6:
+        a = int(a)
+    if b.is_integer() and abs(b) < 2**53 and rng.random() < 0.6:
+        b = int(b)
     arg = {"tuple": (a, b), "list": [a, b], "array": np.array([a, b]), "reversed": (b, a)}[form]
     adj = sorted({nm for la, lb in itertools.product(ca, cb) for nm in _adjacent(boxes, ax, la, lb)})
     op = {"op": "sel(range)", "axis": ax, "dim": names[ax], "range": [a, b], "form": form,
